@@ -7,6 +7,7 @@ import (
 
 	"verif/sim/model"
 	"verif/sim/rt"
+	"verif/sim/simkv"
 	"verif/sim/world"
 )
 
@@ -76,6 +77,44 @@ func genC08(r *rt.Rand, tier string, idx int) *world.Scenario {
 			sc.Clients = append(sc.Clients, mk(c, span/2+5))
 		}
 	}
+	if idx%5 == 0 && !concurrent {
+		// a second node over the same store that lags behind (it adopted the leader's revision for a read a
+		// while ago): what it reads at its own, older revision is below a floor the leader has stored since
+		sc.Class += "+lagging-node"
+		if sc.Extra == nil {
+			sc.Extra = map[string]int64{}
+		}
+		sc.Extra["nodes"] = 2
+		ops := sc.Clients[0].Ops
+		at := 2 + r.Intn(len(ops)/2+1)
+		if at > len(ops) {
+			at = len(ops)
+		}
+		head := append(append([]world.Op{}, ops[:at]...), world.Op{K: "waitcommitted"}, world.Op{K: "followersync", Node: 1, W: 0})
+		tail := append([]world.Op{}, ops[at:]...)
+		tail = append(tail, world.Op{K: "waitcommitted"}, world.Op{K: "compact", Rev: world.Rev{M: "zero"}})
+		for i := 0; i < 2+r.Intn(3); i++ {
+			switch r.Intn(3) {
+			case 0:
+				tail = append(tail, world.Op{K: "list", Key: prefix + "/", End: prefix + "0", Node: 1})
+			case 1:
+				tail = append(tail, world.Op{K: "count", Key: prefix + "/", End: prefix + "0", Node: 1})
+			case 2:
+				tail = append(tail, world.Op{K: "stream", Key: prefix + "/", End: prefix + "0", Node: 1})
+			}
+		}
+		sc.Clients[0].Ops = append(head, tail...)
+	}
+	if idx%5 == 1 {
+		// a write whose outcome is unknown stays in the retry queue for a while: compactions requested
+		// meanwhile are clamped below it, and what they answer must be the floor they stored
+		sc.Class += "+pending-unknown-outcome"
+		sc.Plan = append(sc.Plan, &simkv.Fault{Op: "commit", Class: "data", Who: "client", Nth: 1 + r.Intn(6), Effect: []string{"uncertain-applied", "uncertain-lost"}[r.Intn(2)]})
+		if sc.Extra == nil {
+			sc.Extra = map[string]int64{}
+		}
+		sc.Extra["keep_faults"] = 1
+	}
 	if idx%5 == 3 {
 		// writes of the compaction record are lost with an unknown outcome (several in a row): a request
 		// that is answered with success must have stored its floor
@@ -140,10 +179,24 @@ func checkC08(c *Ctx) {
 	}
 	below := 0
 	for _, r := range w.Recs {
-		if !r.Done || (r.Op.K != "list" && r.Op.K != "stream") {
+		lagging := r.Op.Node == 1 && r.RevAbs == 0 && (r.Op.K == "list" || r.Op.K == "stream" || r.Op.K == "count")
+		if !r.Done || (r.Op.K != "list" && r.Op.K != "stream" && !lagging) {
 			continue
 		}
 		R := r.RevAbs
+		if lagging {
+			// a read "at latest" on the lagging node is a read at that node's own revision
+			R = r.ComInv
+			if r.Op.K == "count" {
+				if fb := floorBefore(r.Inv); R < fb && r.Err == "" {
+					out.violate(P, "read-below-floor-served", "read-below-floor-served op=count",
+						"count on the lagging node (its revision %d) was answered (%d) although a compaction at %d had been accepted before it began", R, r.Count, fb)
+				} else if R < fb {
+					below++
+				}
+				continue
+			}
+		}
 		if R == 0 {
 			continue // "latest": never below the floor
 		}
